@@ -109,6 +109,47 @@ def check_C19(res, tier, seed, replay):
             return {'e': 'Link', 'tus': [r[0]['tu'] for r in rs], 'ok': ok}
         with cf.ThreadPoolExecutor(max_workers=vlib.NCPU) as ex:
             events += list(ex.map(do_link, link_jobs))
+        # two public headers in ONE translation unit (full configuration): what does the second one still contribute?
+        inc_root = os.path.join(vlib.REPO, 'include') + os.sep
+        cinc_full = vlib.config_include(True, True)
+
+        def pp_info(hlist):
+            src = os.path.join(wd, 'pp_%d.cpp' % abs(hash(tuple(hlist))))
+            with open(src, 'w') as f:
+                f.write(''.join('#include <%s>\n' % h for h in hlist))
+            p = vlib.sh(['mpicxx', '-std=c++14', '-w', '-E', '-I' + os.path.join(vlib.REPO, 'include'), '-I' + cinc_full, src], timeout=900)
+            if p.returncode != 0:
+                return None
+            entered, own, cur = set(), {}, None
+            for ln in p.stdout.splitlines():
+                if ln.startswith('# '):
+                    m = re.match(r'# \d+ "([^"]*)"', ln)
+                    if m:
+                        path = m.group(1)
+                        cur = path[len(inc_root):] if path.startswith(inc_root) else None
+                        if cur:
+                            entered.add(cur)
+                elif cur and ln.strip():
+                    own[cur] = own.get(cur, 0) + 1
+            return entered, own
+        full_hs = [h for h in hs if applicable(h, True, True) and any(e['header'] == h and e['cfg'] == 'tbb1mpi1' and e['ok'] for e in events if e['e'] == 'Compile')]
+        umbrellas = [h for h in full_hs if h.endswith('/parmcb.hpp')]
+        if tier == 'quick':
+            pairs = [(a, b) for a in umbrellas for b in full_hs if a != b] + [(a, b) for b in umbrellas for a in full_hs if a != b and a not in umbrellas]
+        else:
+            pairs = [(a, b) for a in full_hs for b in full_hs if a != b]
+        with cf.ThreadPoolExecutor(max_workers=vlib.NCPU) as ex:
+            alone = dict(zip(full_hs, ex.map(lambda h: pp_info([h]), full_hs)))
+            both = list(ex.map(lambda ab: pp_info(list(ab)), pairs))
+        npair = 0
+        for (a, b), info in zip(pairs, both):
+            if alone.get(b) is None or info is None:
+                continue            # (a header that does not preprocess alone is reported by its Compile event)
+            ent_b, own_b = alone[b]
+            ent_ab, own_ab = info
+            events.append({'e': 'Pair', 'cfg': 'tbb1mpi1', 'first': a, 'second': b, 'missing': sorted(ent_b - ent_ab),
+                           'own_alone': own_b.get(b, 0), 'own_after': own_ab.get(b, 0)})
+            npair += 1
         for (tbb, mpi) in cfgs:
             events.append({'e': 'AllPairs', 'cfg': 'tbb%dmpi%d' % (tbb, mpi)})
         trace = os.path.join(wd, 'build.ndjson')
@@ -122,13 +163,13 @@ def check_C19(res, tier, seed, replay):
         res.cov['distinct_nontrivial'] = ncomp
         res.cov['explanation'] = ('%d translation units (one per public header and build configuration, the header first and alone) compiled with the real compiler; strong external symbols extracted with nm; '
                                   '%d real link runs (every header of the full configuration included from two TUs, plus sampled mixed pairs); TLC validates the links against the one-definition rule of Build.tla '
-                                  'and decides every pair of TUs of each configuration from the symbol tables' % (ncomp, len(link_jobs)))
+                                  'and decides every pair of TUs of each configuration from the symbol tables; %d ordered pairs of public headers preprocessed in ONE translation unit (the second header must enter the same files and keep its own text)' % (ncomp, len(link_jobs), npair))
         res.cov['rule'] = 'TU = (public header under include/parmcb, configuration of PARMCB_HAVE_TBB/MPI); all are non-trivial'
-        res.cov['event_counts'] = {'Compile': ncomp, 'Link': len(link_jobs), 'AllPairs': len(cfgs)}
+        res.cov['event_counts'] = {'Compile': ncomp, 'Link': len(link_jobs), 'AllPairs': len(cfgs), 'Pair': npair}
         res.sample(events[0])
         for rj in v['rejects']:
             ev = json.loads(rj['segment'][0])
-            facts = {'event': ev.get('e'), 'clauses': rj['clauses'], 'tu': ev.get('tu') or ev.get('tus') or ev.get('cfg'), 'err': ev.get('err', '')[:300]}
+            facts = {'event': ev.get('e'), 'clauses': rj['clauses'], 'tu': ev.get('tu') or ev.get('tus') or ([ev.get('first'), ev.get('second')] if ev.get('e') == 'Pair' else ev.get('cfg')), 'err': ev.get('err', '')[:300]}
             if ev.get('e') == 'AllPairs':
                 facts['strong_symbols'] = {e['tu']: e['strong'] for e in events if e['e'] == 'Compile' and e['cfg'] == ev['cfg'] and e['strong']}
             res.violation(facts, {'trace_segment': rj['segment'][:1], 'spec': 'Trace_Build'})
